@@ -62,6 +62,8 @@ def _window_check(name, rates, evs, bad):
     """every sub-interval [i..j] of the admitted stream of one source against every rate:
        sum <= burst + (tj-ti)/tpt + 1  <=>  tpt*sum - (tj-ti) <= tpt*(burst+1)   (integers, exact)"""
     adm = [(e.t, e.amount, e.idx) for e in evs if e.status == "200" and e.amount > 0]
+    adm += [(e.t, e.amount * e.counts[0], e.idx) for e in evs if e.status == "preq" and e.amount * e.counts[0] > 0]
+    adm.sort(key=lambda x: x[2])
     for (p, a, b) in rates:
         q = rc.tpt((p, a, b))
         pref = 0
